@@ -203,7 +203,7 @@ pub fn generate(seed: u64, n: usize, _thorough: bool, _corpus: Option<&str>) -> 
 fn eval_probe(r: &mut Rng) -> Option<Case> {
     let names: Vec<String> = ["p", "q", "s"].iter().map(|x| x.to_string()).collect();
     let ds: Vec<VarDecl> = names.iter().map(|n| VarDecl { name: n.clone(), ty: VariableType::IntegerRange(-4, 4) }).collect();
-    let vals: Vec<f64> = (0..3).map(|_| r.range(-4, 4) as f64).collect();
+    let vals: Vec<f64> = if r.chance(1, 2) { (0..3).map(|_| *r.pick(&[0.0, 1.0, 0.0, 1.0, 2.0, -1.0])).collect() } else { (0..3).map(|_| r.range(-4, 4) as f64).collect() };
     let mut b = ModelBuilder::new();
     let mut handles = IndexMap::new();
     for d in &ds { handles.insert(d.name.clone(), b.add_var(d.name.clone(), d.ty)); }
@@ -214,7 +214,18 @@ fn eval_probe(r: &mut Rng) -> Option<Case> {
     let sol = b.solve_with(Auto).ok()?;
     let cfg = ModelCfg { max_vars: 3, depth: 3, logic: true, piecewise: true, unbounded: false, fractional: true, strict_cmp: false, hostile: false };
     // numeric and logic operators over ALL variables (truthiness of non-0/1 values included: eval_expr is total)
-    let e = if r.chance(1, 2) { gen_model::num_exp(r, &ds, &cfg, 3) } else { crate::gen_exp::exp(r, &crate::gen_exp::ExpCfg { vars: names.clone(), logic: true, minmax: true, special: false }, 3) };
+    let connective = r.chance(1, 3);
+    let e = if connective {
+        // one connective applied to variable handles directly (the METHOD / operator forms with a bare `Var` receiver), possibly
+        // under one more operator; the values below include the rows of the truth table where the connectives differ
+        let v = |r: &mut Rng| Box::new(Exp::Variable(r.pick(&names).clone()));
+        let inner = match r.below(9) {
+            0 => Exp::Iff(v(r), v(r)), 1 => Exp::Implies(v(r), v(r)), 2 => Exp::Xor(v(r), v(r)),
+            3 => Exp::BinOp(BinOp::And, v(r), v(r)), 4 => Exp::BinOp(BinOp::Or, v(r), v(r)), 5 => Exp::Not(v(r)), 6 => Exp::UnOp(UnOp::Neg, v(r)),
+            7 => Exp::BinOp(BinOp::Iff, v(r), v(r)), _ => Exp::BinOp(BinOp::Implies, v(r), v(r)),
+        };
+        match r.below(4) { 0 => Exp::Not(Box::new(inner)), 1 => Exp::BinOp(BinOp::Add, Box::new(inner), v(r)), 2 => Exp::Iff(Box::new(inner), v(r)), _ => inner }
+    } else if r.chance(1, 2) { gen_model::num_exp(r, &ds, &cfg, 3) } else { crate::gen_exp::exp(r, &crate::gen_exp::ExpCfg { vars: names.clone(), logic: true, minmax: true, special: false }, 3) };
     let be = to_builder(&e, &handles, r);
     let mut c = Case::default();
     c.req = format!("eval-expr {} (vals {})", sx::exp(&builder_shape(&index_exp(&e, &names))), sx::nums(&vals));
@@ -222,6 +233,7 @@ fn eval_probe(r: &mut Rng) -> Option<Case> {
     c.oracle = format!("eval-check {} (vals {}) {}", sx::exp(&builder_shape(&index_exp(&e, &names))), sx::nums(&vals), sx::num(sol.eval(&be)));
     c.show = format!("solution.eval({}) at {:?}", e, vals);
     c.tags = vec!["eval-probe".into()];
+    if connective { c.tags.push("eval-probe-connective".into()); }
     c.nontrivial = true;
     Some(c)
 }
@@ -768,6 +780,12 @@ fn history_cases(r: &mut Rng) -> Vec<Case> {
             if q_handles.iter().any(|i| sol.var_value(Var { index: *i }).is_none()) { c.tags.push("var-value-none".into()); }
             c.req = format!("{} ({} {} {})", head_req, section, sx_sol(&canned), queries);
             c.imp = format!("(ok {} {})", head_imp, readback(&sol));
+            // the first evaluated expression is also judged against the language semantics at the values the handles resolve to
+            let top = h.minted.len() + 4;
+            let vals: Vec<f64> = (0..top).map(|i| sol.numeric_value(Var { index: i }).unwrap_or(0.0)).collect();
+            if vals.iter().all(|v| v.is_finite()) {
+                c.oracle = format!("eval-check {} (vals {}) {}", sx::exp(&q_exprs[0].0), sx::nums(&vals), sx::num(sol.eval(&q_exprs[0].1)));
+            }
         }
         Ok(Err(BuilderError::Linearization(e))) => {
             // `linearize()?` comes first: its error is what `solve_with` returns, whatever the solver would say
